@@ -293,7 +293,7 @@ func overlapping(m *MChar) bool {
 
 func c13WL(c *Ctx, s *C13Spec) {
 	cfg := *s.WL
-	var g spg.Generator
+	var g interface{}
 	desc := "WLRecipe" + cfg.String()
 	expect := "ok"
 	if s.ZeroValue {
